@@ -135,6 +135,9 @@ func (gaugeScenario) Build(cfg string) ([]func(), func(*vsched.Sched) []string) 
 				outs[i].ran = true
 				runInvoked++
 				inRun++
+				if g := c.ConcurrentCommands(); !disabled && int64(inRun) > g {
+					problems = append(problems, fmt.Sprintf("C04: %d run functions in flight but ConcurrentCommands reads %d", inRun, g))
+				}
 				if !disabled && mc >= 0 && inRun > mc {
 					problems = append(problems, fmt.Sprintf("%d run functions in flight with MaxConcurrentRequests=%d", inRun, mc))
 				}
@@ -151,6 +154,9 @@ func (gaugeScenario) Build(cfg string) ([]func(), func(*vsched.Sched) []string) 
 				outs[i].fbRan = true
 				fbInvoked++
 				inFb++
+				if g := c.ConcurrentFallbacks(); int64(inFb) > g {
+					problems = append(problems, fmt.Sprintf("C04: %d fallbacks in flight but ConcurrentFallbacks reads %d", inFb, g))
+				}
 				if fbmc >= 0 && inFb > fbmc {
 					problems = append(problems, fmt.Sprintf("%d fallbacks in flight with Fallback.MaxConcurrentRequests=%d", inFb, fbmc))
 				}
